@@ -6,7 +6,7 @@ the witness `PP.fq2FieldAgrees = ⟨rfl, rfl, rfl, rfl, rfl⟩`.  (The `iso11_*`
 hypothesis.)  Added: the statement at the level of denoted points, `abs_iso11`, `abs_iso3`
 (`isoMapPoint` is the RFC's `iso_map`: rational map, identity on the poles).
 
-Still NOT a theorem: the homomorphism law of the two isogenies (see the header of C16).
+The homomorphism law of the two isogenies is proved in PP/Props/C16Hom.lean and PP/Props/C16Hom11.lean.
 -/
 import PP.Proofs.Assembly
 
